@@ -399,3 +399,56 @@ func isAborted(err error) bool {
 	}
 	return false
 }
+
+// (case id evalcancel <hex fragment>...): an Eval session in which the context of every second fragment is
+// already cancelled when Run is called (or is cancelled by the fragment itself through the global `cancel`,
+// every fourth); -> (evalcancel (<outcome> <ms>)...): the value or error of every fragment
+func runEvalCancel(args []*Sexp) *Sexp {
+	ev := ugo.NewEval(ugo.CompilerOptions{}, nil)
+	out := L(A("evalcancel"))
+	for i, a := range args {
+		ctx, cancel := context.WithCancel(context.Background())
+		if i%2 == 1 {
+			cancel()
+		}
+		ev.Globals = ugo.Map{"cancel": &ugo.Function{Name: "cancel", Value: func(args ...ugo.Object) (ugo.Object, error) {
+			cancel()
+			return ugo.Undefined, nil
+		}}}
+		var res *Sexp
+		t0 := time.Now()
+		func() {
+			defer func() {
+				if r := recover(); r != nil {
+					res = L(A("panic"), A(sanitize(fmt.Sprint(r))))
+				}
+			}()
+			done := make(chan struct{})
+			go func() {
+				defer close(done)
+				defer func() {
+					if r := recover(); r != nil {
+						res = L(A("panic"), A(sanitize(fmt.Sprint(r))))
+					}
+				}()
+				v, _, err := ev.Run(ctx, atomBytes(a))
+				if err != nil {
+					res = errSexp(err)
+				} else {
+					res = L(A("ok"), SexpOfValue(v))
+				}
+			}()
+			select {
+			case <-done:
+			case <-time.After(3 * time.Second):
+				res = L(A("hang"))
+			}
+		}()
+		cancel()
+		out.List = append(out.List, L(res, A(fmt.Sprint(time.Since(t0).Milliseconds()))))
+		if res.Head() == "hang" {
+			break
+		}
+	}
+	return out
+}
